@@ -73,6 +73,10 @@ func Assert(b bool, msg string) {
 func Known(name string, cond bool) {}
 func Reach(id string)              {}
 func Note(s string)                { Notes = append(Notes, s) }
+
+// MapOrder: in the engine, ranges over Go maps with 2..n entries iterate in a
+// solver-chosen order from now on. Natively Go randomises by itself.
+func MapOrder(n int) {}
 func Symbolic() bool               { return false }
 func IsConcrete(v interface{}) bool { return true }
 
